@@ -113,7 +113,7 @@ def plan(name, dim, tier, lags):
     if name == "HyperSpherical" or dim == primary_dim(name):
         return lags, (3 if tier == "thorough" else 2)
     if tier == "thorough":
-        return LAGS_Q, 2
+        return LAGS_Q, 1
     return LAGS_SHORT, 1
 
 
